@@ -53,7 +53,7 @@ def cases(tier, seed):
                        "seed": rnd.randrange(1 << 30)}
         for block in range(-5, 45, 10):
             yield {"k": "clamp", "gen": gen, "lo": block, "seed": rnd.randrange(1 << 30)}
-    n = 60 if tier == "quick" else 3000
+    n = 60 if tier == "quick" else 15000
     for _ in range(n):
         yield {"k": "random", "gen": rnd.choice((4, 5)), "seed": rnd.randrange(1 << 30)}
 
